@@ -185,14 +185,20 @@ Fixpoint split_dash (s : list N) (cur : list N) : list (list N) :=
   | c :: r => if N.eqb c 45 then rev cur :: split_dash r [] else split_dash r (c :: cur)
   end.
 
-(* strconv.Atoi without the range check *)
-Definition atoi (s : list N) : option Z := parse_Z s.
+(* strconv.Atoi (int is 64 bits): out-of-range values are errors *)
+Definition atoi (s : list N) : option Z :=
+  match parse_Z s with
+  | Some z => if (- two63 <=? z) && (z <? two63) then Some z else None
+  | None => None
+  end.
+(* int32(x) conversion *)
+Definition wrap32 (z : Z) : Z := (z + 2147483648) mod 4294967296 - 2147483648.
 
 Definition date_from_string (s : list N) : option (Z * Z * Z) :=
   match split_dash s [] with
   | [a; b; c] =>
       match atoi a, atoi b, atoi c with
-      | Some y, Some m, Some d => Some (y, m, d)
+      | Some y, Some m, Some d => Some (wrap32 y, wrap32 m, wrap32 d)
       | _, _, _ => None
       end
   | _ => None
